@@ -55,32 +55,37 @@ Record conn := mkconn {
   pending : list task;
   closed : bool;
   authed : Z;
-  unsolicited : bool
+  unsolicited : bool;
+  app_events : Z;
+  desync : bool
 }.
 
-Definition set_srv (v : bool) (c : conn) : conn := mkconn v (strict c) (sid c) (kex c) (kexinit_sent c) (kex_complete c) (send_enc c) (recv_enc c) (next_recv c) (can_recv_ext c) (next_service c) (auth_in_prog c) (auth c) (req_issued c) (methods c) (auth_complete c) (auth_final c) (user c) (deferred c) (pending c) (closed c) (authed c) (unsolicited c).
-Definition set_strict (v : bool) (c : conn) : conn := mkconn (srv c) v (sid c) (kex c) (kexinit_sent c) (kex_complete c) (send_enc c) (recv_enc c) (next_recv c) (can_recv_ext c) (next_service c) (auth_in_prog c) (auth c) (req_issued c) (methods c) (auth_complete c) (auth_final c) (user c) (deferred c) (pending c) (closed c) (authed c) (unsolicited c).
-Definition set_sid (v : bool) (c : conn) : conn := mkconn (srv c) (strict c) v (kex c) (kexinit_sent c) (kex_complete c) (send_enc c) (recv_enc c) (next_recv c) (can_recv_ext c) (next_service c) (auth_in_prog c) (auth c) (req_issued c) (methods c) (auth_complete c) (auth_final c) (user c) (deferred c) (pending c) (closed c) (authed c) (unsolicited c).
-Definition set_kex (v : bool) (c : conn) : conn := mkconn (srv c) (strict c) (sid c) v (kexinit_sent c) (kex_complete c) (send_enc c) (recv_enc c) (next_recv c) (can_recv_ext c) (next_service c) (auth_in_prog c) (auth c) (req_issued c) (methods c) (auth_complete c) (auth_final c) (user c) (deferred c) (pending c) (closed c) (authed c) (unsolicited c).
-Definition set_kexinit_sent (v : bool) (c : conn) : conn := mkconn (srv c) (strict c) (sid c) (kex c) v (kex_complete c) (send_enc c) (recv_enc c) (next_recv c) (can_recv_ext c) (next_service c) (auth_in_prog c) (auth c) (req_issued c) (methods c) (auth_complete c) (auth_final c) (user c) (deferred c) (pending c) (closed c) (authed c) (unsolicited c).
-Definition set_kex_complete (v : bool) (c : conn) : conn := mkconn (srv c) (strict c) (sid c) (kex c) (kexinit_sent c) v (send_enc c) (recv_enc c) (next_recv c) (can_recv_ext c) (next_service c) (auth_in_prog c) (auth c) (req_issued c) (methods c) (auth_complete c) (auth_final c) (user c) (deferred c) (pending c) (closed c) (authed c) (unsolicited c).
-Definition set_send_enc (v : bool) (c : conn) : conn := mkconn (srv c) (strict c) (sid c) (kex c) (kexinit_sent c) (kex_complete c) v (recv_enc c) (next_recv c) (can_recv_ext c) (next_service c) (auth_in_prog c) (auth c) (req_issued c) (methods c) (auth_complete c) (auth_final c) (user c) (deferred c) (pending c) (closed c) (authed c) (unsolicited c).
-Definition set_recv_enc (v : bool) (c : conn) : conn := mkconn (srv c) (strict c) (sid c) (kex c) (kexinit_sent c) (kex_complete c) (send_enc c) v (next_recv c) (can_recv_ext c) (next_service c) (auth_in_prog c) (auth c) (req_issued c) (methods c) (auth_complete c) (auth_final c) (user c) (deferred c) (pending c) (closed c) (authed c) (unsolicited c).
-Definition set_next_recv (v : bool) (c : conn) : conn := mkconn (srv c) (strict c) (sid c) (kex c) (kexinit_sent c) (kex_complete c) (send_enc c) (recv_enc c) v (can_recv_ext c) (next_service c) (auth_in_prog c) (auth c) (req_issued c) (methods c) (auth_complete c) (auth_final c) (user c) (deferred c) (pending c) (closed c) (authed c) (unsolicited c).
-Definition set_can_recv_ext (v : bool) (c : conn) : conn := mkconn (srv c) (strict c) (sid c) (kex c) (kexinit_sent c) (kex_complete c) (send_enc c) (recv_enc c) (next_recv c) v (next_service c) (auth_in_prog c) (auth c) (req_issued c) (methods c) (auth_complete c) (auth_final c) (user c) (deferred c) (pending c) (closed c) (authed c) (unsolicited c).
-Definition set_next_service (v : bool) (c : conn) : conn := mkconn (srv c) (strict c) (sid c) (kex c) (kexinit_sent c) (kex_complete c) (send_enc c) (recv_enc c) (next_recv c) (can_recv_ext c) v (auth_in_prog c) (auth c) (req_issued c) (methods c) (auth_complete c) (auth_final c) (user c) (deferred c) (pending c) (closed c) (authed c) (unsolicited c).
-Definition set_auth_in_prog (v : bool) (c : conn) : conn := mkconn (srv c) (strict c) (sid c) (kex c) (kexinit_sent c) (kex_complete c) (send_enc c) (recv_enc c) (next_recv c) (can_recv_ext c) (next_service c) v (auth c) (req_issued c) (methods c) (auth_complete c) (auth_final c) (user c) (deferred c) (pending c) (closed c) (authed c) (unsolicited c).
-Definition set_auth (v : Z) (c : conn) : conn := mkconn (srv c) (strict c) (sid c) (kex c) (kexinit_sent c) (kex_complete c) (send_enc c) (recv_enc c) (next_recv c) (can_recv_ext c) (next_service c) (auth_in_prog c) v (req_issued c) (methods c) (auth_complete c) (auth_final c) (user c) (deferred c) (pending c) (closed c) (authed c) (unsolicited c).
-Definition set_req_issued (v : bool) (c : conn) : conn := mkconn (srv c) (strict c) (sid c) (kex c) (kexinit_sent c) (kex_complete c) (send_enc c) (recv_enc c) (next_recv c) (can_recv_ext c) (next_service c) (auth_in_prog c) (auth c) v (methods c) (auth_complete c) (auth_final c) (user c) (deferred c) (pending c) (closed c) (authed c) (unsolicited c).
-Definition set_methods (v : list Z) (c : conn) : conn := mkconn (srv c) (strict c) (sid c) (kex c) (kexinit_sent c) (kex_complete c) (send_enc c) (recv_enc c) (next_recv c) (can_recv_ext c) (next_service c) (auth_in_prog c) (auth c) (req_issued c) v (auth_complete c) (auth_final c) (user c) (deferred c) (pending c) (closed c) (authed c) (unsolicited c).
-Definition set_auth_complete (v : bool) (c : conn) : conn := mkconn (srv c) (strict c) (sid c) (kex c) (kexinit_sent c) (kex_complete c) (send_enc c) (recv_enc c) (next_recv c) (can_recv_ext c) (next_service c) (auth_in_prog c) (auth c) (req_issued c) (methods c) v (auth_final c) (user c) (deferred c) (pending c) (closed c) (authed c) (unsolicited c).
-Definition set_auth_final (v : bool) (c : conn) : conn := mkconn (srv c) (strict c) (sid c) (kex c) (kexinit_sent c) (kex_complete c) (send_enc c) (recv_enc c) (next_recv c) (can_recv_ext c) (next_service c) (auth_in_prog c) (auth c) (req_issued c) (methods c) (auth_complete c) v (user c) (deferred c) (pending c) (closed c) (authed c) (unsolicited c).
-Definition set_user (v : Z) (c : conn) : conn := mkconn (srv c) (strict c) (sid c) (kex c) (kexinit_sent c) (kex_complete c) (send_enc c) (recv_enc c) (next_recv c) (can_recv_ext c) (next_service c) (auth_in_prog c) (auth c) (req_issued c) (methods c) (auth_complete c) (auth_final c) v (deferred c) (pending c) (closed c) (authed c) (unsolicited c).
-Definition set_deferred (v : list Z) (c : conn) : conn := mkconn (srv c) (strict c) (sid c) (kex c) (kexinit_sent c) (kex_complete c) (send_enc c) (recv_enc c) (next_recv c) (can_recv_ext c) (next_service c) (auth_in_prog c) (auth c) (req_issued c) (methods c) (auth_complete c) (auth_final c) (user c) v (pending c) (closed c) (authed c) (unsolicited c).
-Definition set_pending (v : list task) (c : conn) : conn := mkconn (srv c) (strict c) (sid c) (kex c) (kexinit_sent c) (kex_complete c) (send_enc c) (recv_enc c) (next_recv c) (can_recv_ext c) (next_service c) (auth_in_prog c) (auth c) (req_issued c) (methods c) (auth_complete c) (auth_final c) (user c) (deferred c) v (closed c) (authed c) (unsolicited c).
-Definition set_closed (v : bool) (c : conn) : conn := mkconn (srv c) (strict c) (sid c) (kex c) (kexinit_sent c) (kex_complete c) (send_enc c) (recv_enc c) (next_recv c) (can_recv_ext c) (next_service c) (auth_in_prog c) (auth c) (req_issued c) (methods c) (auth_complete c) (auth_final c) (user c) (deferred c) (pending c) v (authed c) (unsolicited c).
-Definition set_authed (v : Z) (c : conn) : conn := mkconn (srv c) (strict c) (sid c) (kex c) (kexinit_sent c) (kex_complete c) (send_enc c) (recv_enc c) (next_recv c) (can_recv_ext c) (next_service c) (auth_in_prog c) (auth c) (req_issued c) (methods c) (auth_complete c) (auth_final c) (user c) (deferred c) (pending c) (closed c) v (unsolicited c).
-Definition set_unsolicited (v : bool) (c : conn) : conn := mkconn (srv c) (strict c) (sid c) (kex c) (kexinit_sent c) (kex_complete c) (send_enc c) (recv_enc c) (next_recv c) (can_recv_ext c) (next_service c) (auth_in_prog c) (auth c) (req_issued c) (methods c) (auth_complete c) (auth_final c) (user c) (deferred c) (pending c) (closed c) (authed c) v.
+Definition set_srv (v : bool) (c : conn) : conn := mkconn v (strict c) (sid c) (kex c) (kexinit_sent c) (kex_complete c) (send_enc c) (recv_enc c) (next_recv c) (can_recv_ext c) (next_service c) (auth_in_prog c) (auth c) (req_issued c) (methods c) (auth_complete c) (auth_final c) (user c) (deferred c) (pending c) (closed c) (authed c) (unsolicited c) (app_events c) (desync c).
+Definition set_strict (v : bool) (c : conn) : conn := mkconn (srv c) v (sid c) (kex c) (kexinit_sent c) (kex_complete c) (send_enc c) (recv_enc c) (next_recv c) (can_recv_ext c) (next_service c) (auth_in_prog c) (auth c) (req_issued c) (methods c) (auth_complete c) (auth_final c) (user c) (deferred c) (pending c) (closed c) (authed c) (unsolicited c) (app_events c) (desync c).
+Definition set_sid (v : bool) (c : conn) : conn := mkconn (srv c) (strict c) v (kex c) (kexinit_sent c) (kex_complete c) (send_enc c) (recv_enc c) (next_recv c) (can_recv_ext c) (next_service c) (auth_in_prog c) (auth c) (req_issued c) (methods c) (auth_complete c) (auth_final c) (user c) (deferred c) (pending c) (closed c) (authed c) (unsolicited c) (app_events c) (desync c).
+Definition set_kex (v : bool) (c : conn) : conn := mkconn (srv c) (strict c) (sid c) v (kexinit_sent c) (kex_complete c) (send_enc c) (recv_enc c) (next_recv c) (can_recv_ext c) (next_service c) (auth_in_prog c) (auth c) (req_issued c) (methods c) (auth_complete c) (auth_final c) (user c) (deferred c) (pending c) (closed c) (authed c) (unsolicited c) (app_events c) (desync c).
+Definition set_kexinit_sent (v : bool) (c : conn) : conn := mkconn (srv c) (strict c) (sid c) (kex c) v (kex_complete c) (send_enc c) (recv_enc c) (next_recv c) (can_recv_ext c) (next_service c) (auth_in_prog c) (auth c) (req_issued c) (methods c) (auth_complete c) (auth_final c) (user c) (deferred c) (pending c) (closed c) (authed c) (unsolicited c) (app_events c) (desync c).
+Definition set_kex_complete (v : bool) (c : conn) : conn := mkconn (srv c) (strict c) (sid c) (kex c) (kexinit_sent c) v (send_enc c) (recv_enc c) (next_recv c) (can_recv_ext c) (next_service c) (auth_in_prog c) (auth c) (req_issued c) (methods c) (auth_complete c) (auth_final c) (user c) (deferred c) (pending c) (closed c) (authed c) (unsolicited c) (app_events c) (desync c).
+Definition set_send_enc (v : bool) (c : conn) : conn := mkconn (srv c) (strict c) (sid c) (kex c) (kexinit_sent c) (kex_complete c) v (recv_enc c) (next_recv c) (can_recv_ext c) (next_service c) (auth_in_prog c) (auth c) (req_issued c) (methods c) (auth_complete c) (auth_final c) (user c) (deferred c) (pending c) (closed c) (authed c) (unsolicited c) (app_events c) (desync c).
+Definition set_recv_enc (v : bool) (c : conn) : conn := mkconn (srv c) (strict c) (sid c) (kex c) (kexinit_sent c) (kex_complete c) (send_enc c) v (next_recv c) (can_recv_ext c) (next_service c) (auth_in_prog c) (auth c) (req_issued c) (methods c) (auth_complete c) (auth_final c) (user c) (deferred c) (pending c) (closed c) (authed c) (unsolicited c) (app_events c) (desync c).
+Definition set_next_recv (v : bool) (c : conn) : conn := mkconn (srv c) (strict c) (sid c) (kex c) (kexinit_sent c) (kex_complete c) (send_enc c) (recv_enc c) v (can_recv_ext c) (next_service c) (auth_in_prog c) (auth c) (req_issued c) (methods c) (auth_complete c) (auth_final c) (user c) (deferred c) (pending c) (closed c) (authed c) (unsolicited c) (app_events c) (desync c).
+Definition set_can_recv_ext (v : bool) (c : conn) : conn := mkconn (srv c) (strict c) (sid c) (kex c) (kexinit_sent c) (kex_complete c) (send_enc c) (recv_enc c) (next_recv c) v (next_service c) (auth_in_prog c) (auth c) (req_issued c) (methods c) (auth_complete c) (auth_final c) (user c) (deferred c) (pending c) (closed c) (authed c) (unsolicited c) (app_events c) (desync c).
+Definition set_next_service (v : bool) (c : conn) : conn := mkconn (srv c) (strict c) (sid c) (kex c) (kexinit_sent c) (kex_complete c) (send_enc c) (recv_enc c) (next_recv c) (can_recv_ext c) v (auth_in_prog c) (auth c) (req_issued c) (methods c) (auth_complete c) (auth_final c) (user c) (deferred c) (pending c) (closed c) (authed c) (unsolicited c) (app_events c) (desync c).
+Definition set_auth_in_prog (v : bool) (c : conn) : conn := mkconn (srv c) (strict c) (sid c) (kex c) (kexinit_sent c) (kex_complete c) (send_enc c) (recv_enc c) (next_recv c) (can_recv_ext c) (next_service c) v (auth c) (req_issued c) (methods c) (auth_complete c) (auth_final c) (user c) (deferred c) (pending c) (closed c) (authed c) (unsolicited c) (app_events c) (desync c).
+Definition set_auth (v : Z) (c : conn) : conn := mkconn (srv c) (strict c) (sid c) (kex c) (kexinit_sent c) (kex_complete c) (send_enc c) (recv_enc c) (next_recv c) (can_recv_ext c) (next_service c) (auth_in_prog c) v (req_issued c) (methods c) (auth_complete c) (auth_final c) (user c) (deferred c) (pending c) (closed c) (authed c) (unsolicited c) (app_events c) (desync c).
+Definition set_req_issued (v : bool) (c : conn) : conn := mkconn (srv c) (strict c) (sid c) (kex c) (kexinit_sent c) (kex_complete c) (send_enc c) (recv_enc c) (next_recv c) (can_recv_ext c) (next_service c) (auth_in_prog c) (auth c) v (methods c) (auth_complete c) (auth_final c) (user c) (deferred c) (pending c) (closed c) (authed c) (unsolicited c) (app_events c) (desync c).
+Definition set_methods (v : list Z) (c : conn) : conn := mkconn (srv c) (strict c) (sid c) (kex c) (kexinit_sent c) (kex_complete c) (send_enc c) (recv_enc c) (next_recv c) (can_recv_ext c) (next_service c) (auth_in_prog c) (auth c) (req_issued c) v (auth_complete c) (auth_final c) (user c) (deferred c) (pending c) (closed c) (authed c) (unsolicited c) (app_events c) (desync c).
+Definition set_auth_complete (v : bool) (c : conn) : conn := mkconn (srv c) (strict c) (sid c) (kex c) (kexinit_sent c) (kex_complete c) (send_enc c) (recv_enc c) (next_recv c) (can_recv_ext c) (next_service c) (auth_in_prog c) (auth c) (req_issued c) (methods c) v (auth_final c) (user c) (deferred c) (pending c) (closed c) (authed c) (unsolicited c) (app_events c) (desync c).
+Definition set_auth_final (v : bool) (c : conn) : conn := mkconn (srv c) (strict c) (sid c) (kex c) (kexinit_sent c) (kex_complete c) (send_enc c) (recv_enc c) (next_recv c) (can_recv_ext c) (next_service c) (auth_in_prog c) (auth c) (req_issued c) (methods c) (auth_complete c) v (user c) (deferred c) (pending c) (closed c) (authed c) (unsolicited c) (app_events c) (desync c).
+Definition set_user (v : Z) (c : conn) : conn := mkconn (srv c) (strict c) (sid c) (kex c) (kexinit_sent c) (kex_complete c) (send_enc c) (recv_enc c) (next_recv c) (can_recv_ext c) (next_service c) (auth_in_prog c) (auth c) (req_issued c) (methods c) (auth_complete c) (auth_final c) v (deferred c) (pending c) (closed c) (authed c) (unsolicited c) (app_events c) (desync c).
+Definition set_deferred (v : list Z) (c : conn) : conn := mkconn (srv c) (strict c) (sid c) (kex c) (kexinit_sent c) (kex_complete c) (send_enc c) (recv_enc c) (next_recv c) (can_recv_ext c) (next_service c) (auth_in_prog c) (auth c) (req_issued c) (methods c) (auth_complete c) (auth_final c) (user c) v (pending c) (closed c) (authed c) (unsolicited c) (app_events c) (desync c).
+Definition set_pending (v : list task) (c : conn) : conn := mkconn (srv c) (strict c) (sid c) (kex c) (kexinit_sent c) (kex_complete c) (send_enc c) (recv_enc c) (next_recv c) (can_recv_ext c) (next_service c) (auth_in_prog c) (auth c) (req_issued c) (methods c) (auth_complete c) (auth_final c) (user c) (deferred c) v (closed c) (authed c) (unsolicited c) (app_events c) (desync c).
+Definition set_closed (v : bool) (c : conn) : conn := mkconn (srv c) (strict c) (sid c) (kex c) (kexinit_sent c) (kex_complete c) (send_enc c) (recv_enc c) (next_recv c) (can_recv_ext c) (next_service c) (auth_in_prog c) (auth c) (req_issued c) (methods c) (auth_complete c) (auth_final c) (user c) (deferred c) (pending c) v (authed c) (unsolicited c) (app_events c) (desync c).
+Definition set_authed (v : Z) (c : conn) : conn := mkconn (srv c) (strict c) (sid c) (kex c) (kexinit_sent c) (kex_complete c) (send_enc c) (recv_enc c) (next_recv c) (can_recv_ext c) (next_service c) (auth_in_prog c) (auth c) (req_issued c) (methods c) (auth_complete c) (auth_final c) (user c) (deferred c) (pending c) (closed c) v (unsolicited c) (app_events c) (desync c).
+Definition set_unsolicited (v : bool) (c : conn) : conn := mkconn (srv c) (strict c) (sid c) (kex c) (kexinit_sent c) (kex_complete c) (send_enc c) (recv_enc c) (next_recv c) (can_recv_ext c) (next_service c) (auth_in_prog c) (auth c) (req_issued c) (methods c) (auth_complete c) (auth_final c) (user c) (deferred c) (pending c) (closed c) (authed c) v (app_events c) (desync c).
+Definition set_app_events (v : Z) (c : conn) : conn := mkconn (srv c) (strict c) (sid c) (kex c) (kexinit_sent c) (kex_complete c) (send_enc c) (recv_enc c) (next_recv c) (can_recv_ext c) (next_service c) (auth_in_prog c) (auth c) (req_issued c) (methods c) (auth_complete c) (auth_final c) (user c) (deferred c) (pending c) (closed c) (authed c) (unsolicited c) v (desync c).
+Definition set_desync (v : bool) (c : conn) : conn := mkconn (srv c) (strict c) (sid c) (kex c) (kexinit_sent c) (kex_complete c) (send_enc c) (recv_enc c) (next_recv c) (can_recv_ext c) (next_service c) (auth_in_prog c) (auth c) (req_issued c) (methods c) (auth_complete c) (auth_final c) (user c) (deferred c) (pending c) (closed c) (authed c) (unsolicited c) (app_events c) v.
+
 
 (* counters and ghost history kept outside [conn] so that packet processing cannot touch them *)
 Record st := mkst {
@@ -94,7 +99,7 @@ Record st := mkst {
 
 Definition init_conn (server : bool) : conn :=
   mkconn server false false false false false false false false false false false 0 false [0] false false 0
-         [] [] false 0 false.
+         [] [] false 0 false 0 false.
 Definition init (server : bool) : st := mkst (init_conn server) 0 0 (-1) (-1) [].
 
 Definition outs := list (Z * Z).            (* (message type, argument): argument = sequence number echoed by UNIMPLEMENTED *)
@@ -165,8 +170,12 @@ Definition on_kexinit (c : conn) (seq cls : Z) : res :=
       let c3 := set_kex true c2 in
       if srv c3 then (c3, o2) else (c3, o2 ++ [(30, 0)]).          (* client: kex.start() sends ECDH_INIT *)
 
-Definition on_newkeys (c : conn) : res :=
-  if next_recv c then (set_can_recv_ext true (set_next_recv false (set_recv_enc true c)), [])
+(* NEWKEYS.  cls: 0 = sent by the peer's own protocol engine, 1 = injected: the receiving side switches to the
+   new keys although the peer's engine has not, so from here on the byte stream cannot be decoded in step
+   (what the implementation then does - wait for a nonsense packet length, or fail a MAC - is outside the
+   model; [desync] marks it) *)
+Definition on_newkeys (c : conn) (cls : Z) : res :=
+  if next_recv c then (set_desync (cls =? 1) (set_can_recv_ext true (set_next_recv false (set_recv_enc true c))), [])
   else fatal c.
 
 (* the key exchange handler (ECDH family: INIT = 30, REPLY = 31).  cls: 0 = valid, other = rejected *)
@@ -246,7 +255,8 @@ Definition on_userauth_success (fixed : bool) (c : conn) : res :=
     send_deferred c2
   else fatal c.
 
-Definition on_banner (c : conn) : res := if srv c then fatal c else (c, []).
+(* the client hands the banner to the application (auth_banner_received) *)
+Definition on_banner (c : conn) : res := if srv c then fatal c else (set_app_events (app_events c + 1) c, []).
 
 (* method specific messages 60..79, routed to the auth object:
    auth 1 = client 'none' (no handlers), 2 = client password (60 = PASSWD_CHANGEREQ), 3 = server password
@@ -273,7 +283,7 @@ Definition dispatch (fixed : bool) (c : conn) (seq t cls : Z) : res * bool :=   
       else if t =? 6 then on_service_accept c cls
       else if t =? 7 then on_ext_info c
       else if t =? 20 then on_kexinit c seq cls
-      else if t =? 21 then on_newkeys c
+      else if t =? 21 then on_newkeys c cls
       else if t =? 50 then on_userauth_request c cls
       else if t =? 51 then on_userauth_failure c cls
       else if t =? 52 then on_userauth_success fixed c
@@ -311,7 +321,7 @@ Definition run_task (c : conn) (k : task) : res :=
   match k with
   | TClientAuth m =>                      (* send_userauth_request: the request is handed to send_packet *)
       let '(c1, o1) := send_packet c 50 0 in (set_req_issued true c1, o1)
-  | TChangePw => try_next_auth c true
+  | TChangePw => try_next_auth (set_app_events (app_events c + 1) c) true   (* password_change_requested -> NotImplemented *)
   | TFinishUA begin method pw =>
       (* begin_auth answers True; an auth object in progress is cancelled; lookup_server_auth *)
       if method =? 1 then (set_pending (pending c ++ [TServerPw (user c) pw]) (set_auth 3 c), [])
@@ -363,3 +373,103 @@ Definition run (fixed : bool) (s : st) (l : list event) : st := fold_left (step_
 Inductive verdict := VH | VU | VF | VI | VL | VX.
 Definition verdict_eqb (a b : verdict) : bool :=
   match a, b with VH, VH | VU, VU | VF, VF | VI, VI | VL, VL | VX, VX => true | _, _ => false end.
+
+(* ---- reading the generated table (Gen/MsgGate.v) ---------------------------------------------------------
+   The table is a function rowf : server? -> phase -> strict? -> variant -> string of 256 verdict letters.
+   phases 0..8 = K0 pre-kexinit, K1 kex-running, K2 kex-newkeys-sent, E0 post-newkeys-pre-service,
+   A0 auth-running, A1 auth-done, C0 authenticated, R0 rekey-running, R1 rekey-newkeys-sent;
+   variants 0..3 = well-formed, empty body, last byte cut off, one trailing byte.
+   Everything below is parametric in rowf so that a scratch run can check a live table that differs from
+   the committed one. *)
+From Coq Require Import String Ascii.
+
+Definition rowfun := bool -> Z -> bool -> Z -> string.
+
+Definition verdict_of_ascii (a : ascii) : verdict :=
+  if Ascii.eqb a "H"%char then VH else if Ascii.eqb a "U"%char then VU else if Ascii.eqb a "F"%char then VF
+  else if Ascii.eqb a "I"%char then VI else if Ascii.eqb a "L"%char then VL else VX.
+
+Definition lookup (rowf : rowfun) (server : bool) (phase : Z) (strict_ : bool) (variant t : Z) : verdict :=
+  nth (Z.to_nat t) (map verdict_of_ascii (list_ascii_of_string (rowf server phase strict_ variant))) VX.
+
+Definition zrange (n : nat) : list Z := map Z.of_nat (seq 0 n).
+
+Definition NPHASES : nat := 9.
+Definition NVARIANTS : nat := 4.
+Definition NTYPES : nat := 256.
+
+Definition row_of (rowf : rowfun) (server : bool) (phase : Z) (strict_ : bool) (variant : Z) : list verdict :=
+  map verdict_of_ascii (list_ascii_of_string (rowf server phase strict_ variant)).
+
+(* every (server, phase, strict, variant) of the table *)
+Definition all_cells : list (bool * Z * bool * Z) :=
+  list_prod (list_prod (list_prod [false; true] (zrange NPHASES)) [false; true]) (zrange NVARIANTS).
+
+(* p t w v for every position of a row: w = verdict of the well-formed variant, v = verdict of this variant *)
+Fixpoint row_all (p : Z -> verdict -> verdict -> bool) (t : Z) (lw l : list verdict) : bool :=
+  match lw, l with
+  | w :: rw, v :: r => p t w v && row_all p (t + 1) rw r
+  | _, _ => true
+  end.
+
+(* the whole table: every row has 256 entries and p holds at every entry *)
+Definition table_all (rowf : rowfun) (p : bool -> Z -> bool -> Z -> Z -> verdict -> verdict -> bool) : bool :=
+  forallb (fun k => let '(sv, ph, sk, va) := k in
+                    let lw := row_of rowf sv ph sk 0 in
+                    let l := row_of rowf sv ph sk va in
+                    Nat.eqb (List.length lw) NTYPES && Nat.eqb (List.length l) NTYPES && row_all (p sv ph sk va) 0 lw l)
+          all_cells.
+
+(* the message the running exchange calls for next (ECDH family) *)
+Definition calls_for (server : bool) (phase t : Z) : bool :=
+  if phase =? 0 then t =? 20
+  else if phase =? 1 then (if server then t =? 30 else t =? 31)
+  else if phase =? 2 then t =? 21
+  else false.
+
+Definition is_fatal (v : verdict) : bool := verdict_eqb v VF || verdict_eqb v VL.
+
+(* messages only the OTHER role may send *)
+Definition foreign_to (server : bool) (t : Z) : bool :=
+  if server then (t =? 6) || (t =? 31) || (t =? 51) || (t =? 52) || (t =? 53) || (t =? 60)
+  else (t =? 5) || (t =? 30) || (t =? 50) || (t =? 61).
+
+(* message numbers with no meaning in any phase for the negotiated methods *)
+Definition unassigned (t : Z) : bool :=
+  (t =? 0) || ((8 <=? t) && (t <=? 19)) || ((22 <=? t) && (t <=? 29)) || ((54 <=? t) && (t <=? 59))
+  || ((83 <=? t) && (t <=? 89)) || (128 <=? t).
+
+Definition p_total (sv : bool) (ph : Z) (sk : bool) (va t : Z) (w v : verdict) : bool := negb (verdict_eqb v VX).
+
+(* before the first key exchange completes only what the exchange calls for is handled; known exception of
+   the code as it is: a KEXINIT between our NEWKEYS and the peer's when strict KEX is not negotiated *)
+Definition p_prekex (sv : bool) (ph : Z) (sk : bool) (va t : Z) (w v : verdict) : bool :=
+  if (ph <=? 2) && verdict_eqb v VH
+  then calls_for sv ph t || (negb sk && (ph =? 2) && (t =? 20)) else true.
+
+Definition p_preauth (sv : bool) (ph : Z) (sk : bool) (va t : Z) (w v : verdict) : bool :=
+  if (ph <=? 4) && verdict_eqb v VH then t <=? 79 else true.
+
+Definition p_role (sv : bool) (ph : Z) (sk : bool) (va t : Z) (w v : verdict) : bool :=
+  if foreign_to sv t then negb (verdict_eqb v VH) else true.
+
+(* strict KEX, initial exchange: whatever the exchange does not call for ends the connection - at once in
+   K1/K2, and at the latest when the KEXINIT arrives with a non-zero sequence number in K0 *)
+Definition p_strict (sv : bool) (ph : Z) (sk : bool) (va t : Z) (w v : verdict) : bool :=
+  if sk && (ph <=? 2) && negb (calls_for sv ph t)
+  then (if ph =? 0 then is_fatal v else verdict_eqb v VF) else true.
+
+(* after authentication completed: a further USERAUTH_REQUEST is ignored or fatal on a server, a further
+   FAILURE / SUCCESS is fatal on a client *)
+Definition p_postauth (sv : bool) (ph : Z) (sk : bool) (va t : Z) (w v : verdict) : bool :=
+  if 5 <=? ph then
+    (if sv && (t =? 50) then verdict_eqb v VI || verdict_eqb v VF
+     else if negb sv && ((t =? 51) || (t =? 52)) then verdict_eqb v VF else true)
+  else true.
+
+Definition p_unassigned (sv : bool) (ph : Z) (sk : bool) (va t : Z) (w v : verdict) : bool :=
+  if unassigned t then verdict_eqb v VU || is_fatal v else true.
+
+(* a damaged body never makes a message more acceptable than its well-formed form *)
+Definition p_malformed (sv : bool) (ph : Z) (sk : bool) (va t : Z) (w v : verdict) : bool :=
+  if va =? 0 then true else verdict_eqb v VF || verdict_eqb v w.
